@@ -12,8 +12,8 @@ C = 'src/yldprolog/compiler.py'
 VARIANTS = []
 
 
-def fire(id, props, rules, *edits):
-    VARIANTS.append(dict(id=id, props=props, expect='fire', rules=rules, edits=list(edits)))
+def fire(id, props, rules, *edits, **kw):
+    VARIANTS.append(dict(id=id, props=props, expect='fire', rules=rules, edits=list(edits), **kw))
 
 
 def silent(id, props, *edits):
@@ -465,7 +465,7 @@ fire('grammar-semicolon-before-arrow', ['C06'], ['C06.G1'],
       """    | <assoc=right> predicateexpression op=';' predicateexpression
     | <assoc=right> predicateexpression op='->' predicateexpression"""))
 silent('emitter-rename-flag', ['C05', 'C06', 'C01', 'C11', 'C12'],
-       (G, "doBreak", "brkFlag", 4))
+       (G, "doBreak", "brkFlag", 7))
 silent('foreach-fstring', ['C05', 'C06', 'C11', 'C12', 'C03', 'C20'],
        (G, "        s = self.l(\"for %s in %s:\" % (loop_var,expression))", "        s = self.l(f'for {loop_var} in {expression}:')"))
 silent('compile-body-reorder-disjoint-cases', ['C05', 'C06', 'C01'],
@@ -522,10 +522,6 @@ fire('builtins-not-emptied', ['C12', 'C04'], ['C12.T5', 'C04.I6'],
 fire('callee-not-in-context', ['C12', 'C16'], ['C12.T3', 'C16.A5'],
      (G, "        return [ YPCodeForeach(YPCodeCall('unify',[YPCodeVar(var),self.compile_expression(val)]), code) ]",
          "        return [ YPCodeForeach(YPCodeCall('unify_terms',[YPCodeVar(var),self.compile_expression(val)]), code) ]"))
-fire('atom-name-in-comment-line', ['C12', 'C19'], ['C12.T6', 'C19.B2', 'C12.T1'],
-     (G, "        s = self.l(f'def {func.name}_{len(func.args)}({\",\".join(func.args)}):')",
-         "        s = self.l(f'# predicate {func.body}\\n') + self.l(f'def {func.name}_{len(func.args)}({\",\".join(func.args)}):')"))
-
 # ---------------------------------------------------------------------------------------------
 # C16
 fire('dot-constant-disagrees', ['C16'], ['C16.A1'],
@@ -631,3 +627,16 @@ fire('functor-to-python-raw-args', ['C15'], ['C15.V3'],
 silent('get-value-explicit-branches', ['C15', 'C13'],
        (E, "        if not self._is_bound:\n            return self\n        return get_value(self._value)",
            "        if self._is_bound:\n            return get_value(self._value)\n        else:\n            return self"))
+
+# a correct dead-code elimination: nothing is emitted after a return
+silent('cut-dead-code-elimination', ['C05', 'C06', 'C01'],
+       (G, "                code_a = self.compile_body(body.rhs)\n                return code_a + [ YPCodeYieldBreak() ]",
+           "                code_a = self.compile_body(body.rhs)\n                if code_a and isinstance(code_a[-1], YPCodeYieldBreak):\n                    return code_a\n                return code_a + [ YPCodeYieldBreak() ]"))
+
+
+# a non-compositional "optimisation": compile_body inspects the code its recursive call returned and wrongly
+# concludes that a loop whose body ends in a return always returns (needs the depth-3 bounded check)
+fire('cut-dead-code-elimination-too-eager', ['C05'], ['C05.R2'],
+     (G, "                code_a = self.compile_body(body.rhs)\n                return code_a + [ YPCodeYieldBreak() ]",
+         "                code_a = self.compile_body(body.rhs)\n                last = code_a[-1] if code_a else None\n                while isinstance(last, YPCodeForeach) and last.loop_code:\n                    last = last.loop_code[-1]\n                if isinstance(last, YPCodeYieldBreak):\n                    return code_a\n                return code_a + [ YPCodeYieldBreak() ]"),
+     deep=True)
